@@ -52,8 +52,9 @@ def gen_program(r):
     members = names[start:start + size]
     # lower reads upper; both halves share their external inputs
     deps[members[1]] = sorted(set(deps[members[0]]) | {members[0]})
-    iterations['it_' + members[0]] = {'predicates': list(members), 'repetitions': r.choice([1, 2, 3, 4]),
-                                     'stop_signal': None, 'mode': None}
+    sig = '/tmp/logical_stop_%s.json' % members[0] if r.random() < 0.5 else None
+    iterations['it_' + members[0]] = {'predicates': list(members), 'repetitions': r.choice([1, 2, 3, 4] + ([5, 6] if sig else [])),
+                                     'stop_signal': sig, 'mode': None}
     # nothing between the members, and later tables may read either member
   in_group = {p for it in iterations.values() for p in it['predicates']}
   pool = [x for x in names if x not in in_group]
@@ -123,12 +124,19 @@ def build_executions(prog, r_order=None):
 
 
 class SimRunner(object):
-  def __init__(self, error_at):
+  def __init__(self, error_at, world=None, signal=None):
     self.calls = []
     self.error_at = error_at
+    self.world = world
+    self.signal = signal          # (call index, path, content): the engine raises the stop signal
+    self.visible = []             # per call: is a non-empty signal file visible after it?
 
   def __call__(self, sql, engine, is_final):
     self.calls.append([sql, is_final])
+    if self.signal and len(self.calls) == self.signal[0]:
+      self.world.fs[self.signal[1]] = self.signal[2]
+    if self.world is not None:
+      self.visible.append(sorted(k for k, v in self.world.fs.items() if v))
     if self.error_at is not None and len(self.calls) == self.error_at:
       raise concworld.SimEngineError('injected engine error at call %d' % len(self.calls))
     if is_final:
@@ -136,14 +144,22 @@ class SimRunner(object):
     return None
 
 
-def execute(case):
+def execute(case, execs=None):
   from lsim import concsim
   cl = concsim.cl()
   world = concworld.World()
   concworld.install(cl, world)
   prog = case['program']
-  execs = build_executions(prog)
-  runner = SimRunner(case.get('error_at'))
+  if execs is None:
+    execs = build_executions(prog)
+  sig = None
+  if case.get('signal_at') is not None:
+    paths = sorted(it['stop_signal'] for it in prog['iterations'].values() if it.get('stop_signal'))
+    if paths:
+      sig = (case['signal_at'], paths[0], 'stop')
+  for path in case.get('stale_files') or []:
+    world.fs[path] = 'stale'
+  runner = SimRunner(case.get('error_at'), world, sig)
   out = {'outcome': 'returned', 'detail': '', 'result': None}
   old = sys.stdout
   sys.stdout = io.StringIO()
@@ -159,6 +175,7 @@ def execute(case):
   finally:
     sys.stdout = old
   out['calls'] = runner.calls
+  out['visible'] = runner.visible
   return out
 
 
@@ -213,8 +230,26 @@ def check(case, obs):
     pos_last[key] = i
     if fin != (kind == 'SELECT'):
       V('exactly-once', 'is_final-flag', '%s was passed is_final=%s' % (stmt, fin))
+  # iterations: the expected member sequence is the cyclic-queue model of layer A fed with the
+  # visibility of the stop signal after each member call of this very run
+  from lsim import concsim
+  exp_seq = {}
+  for k, it in prog['iterations'].items():
+    ms = it['predicates']
+    if not all(m in needed for m in ms):
+      continue
+    vis = []
+    for (sql, fin), v in zip(obs['calls'], obs.get('visible') or [[]] * len(obs['calls'])):
+      stmt = sql.split('\n')[-1]
+      if stmt.startswith('CREATE') and stmt.split(' ', 1)[1] in set(ms):
+        vis.append(bool(it.get('stop_signal')) and it['stop_signal'] in v)
+    exp_seq[k] = concsim.expected_block(list(ms), max(it['repetitions'], 1),
+                                        lambda j, vis=vis: vis[j - 1] if j - 1 < len(vis) else (vis[-1] if vis else False))
   for t in needed:
-    reps = max(members[t][1]['repetitions'], 1) if t in members else 1
+    if t in members and members[t][0] in exp_seq:
+      reps = exp_seq[members[t][0]].count(t)
+    else:
+      reps = max(members[t][1]['repetitions'], 1) if t in members else 1
     n = count.get(('CREATE', t), 0)
     if n != reps:
       V('exactly-once', 'assembled', 'table statement of %s ran %d times, expected %d' % (t, n, reps))
@@ -243,7 +278,7 @@ def check(case, obs):
     if not all(m in needed for m in ms):
       continue
     seq = [stmt.split(' ', 1)[1] for stmt, fin in body if stmt.startswith('CREATE') and stmt.split(' ', 1)[1] in set(ms)]
-    exp = list(ms) * max(it['repetitions'], 1)
+    exp = exp_seq.get(k, list(ms) * max(it['repetitions'], 1))
     if seq != exp:
       V('iteration-shape', 'assembled', 'iteration %s ran %s, declared %s' % (k, seq, exp))
   # results: each requested predicate gets the table of its own final statement
@@ -259,16 +294,19 @@ def check(case, obs):
 
 
 def run_case_p(case):
-  obs = execute(case)
+  execs = build_executions(case['program']) if case.get('same_executions') else None
+  obs = execute(case, execs)
   vs = check(case, obs)
-  if case.get('error_at') is not None and obs['outcome'] == 'engine_error':
-    # the process survives the failed execution: the same request, run again without the fault,
-    # must behave as if nothing had happened
-    clean = dict(case, error_at=None)
-    obs2 = execute(clean)
+  again = case.get('error_at') is not None and obs['outcome'] == 'engine_error'
+  if again or case.get('rerun'):
+    # the process survives the (failed or completed) execution: the same request, run again
+    # without faults and with the stop file removed by the caller, must behave as if nothing had
+    # happened - also when the caller hands over the very same execution objects
+    clean = dict(case, error_at=None, signal_at=None, stale_files=[])
+    obs2 = execute(clean, execs)
     for v in check(clean, obs2):
       v = dict(v)
-      v['class'] = 'after-failure:' + v['class']
+      v['class'] = ('after-failure:' if again else 'second-run:') + v['class']
       vs.append(v)
   return vs, obs
 
@@ -315,9 +353,31 @@ def run_batch_into(S, log, seed, batch, tier, n, hashseed):
         c = dict(base, error_at=k)
         v2, o2 = run_case_p(c)
         cases.append((c, v2, o2))
+    sigs = [it for it in prog['iterations'].values() if it.get('stop_signal')]
+    if sigs and obs['outcome'] == 'returned' and ncalls <= 40:
+      # the engine raises the stop signal at every possible call; then the same request again,
+      # on fresh or on the very same execution objects
+      for k in range(1, ncalls + 1):
+        c = dict(base, signal_at=k, rerun=True, same_executions=bool((k + i) % 2))
+        if (k + i) % 5 == 0 and ncalls > k:
+          c['error_at'] = r.randint(k + 1, ncalls)      # and a later statement fails
+        v2, o2 = run_case_p(c)
+        cases.append((c, v2, o2))
+      c = dict(base, stale_files=[sigs[0]['stop_signal']], rerun=True, same_executions=True)
+      v2, o2 = run_case_p(c)
+      cases.append((c, v2, o2))
     for case, vs, obs in cases:
       S.runs += 1
       S.counters['P:plans'] += 1
+      if case.get('signal_at') is not None:
+        S.faults_configured['P_signal_raise'] += 1
+        if any(obs.get('visible') or []) and any(v for v in obs['visible']):
+          S.faults_fired['P_signal_raise'] += 1
+      if case.get('same_executions'):
+        S.probes['P_same_execution_objects_run_twice'] += 1
+      if case.get('stale_files'):
+        S.faults_configured['P_signal_stale_at_start'] += 1
+        S.faults_fired['P_signal_stale_at_start'] += 1
       if case.get('error_at') is not None:
         S.faults_configured['engine_error'] += 1
         if obs['outcome'] == 'engine_error':
